@@ -169,7 +169,10 @@ def get_inputs(input_dict: dict) -> dict[PurePath, Any]:
                 raise JSONError(
                     f"Calculated keccak of '{path}' does not match keccak given in input JSON"
                 )
-        if path.stem in seen:
+        # (two sources may share a file name as long as their paths differ,
+        # e.g. `a/utils.vy` and `b/utils.vy`; `-f solc_json` produces such
+        # inputs for projects with several search paths)
+        if path in ret:
             raise JSONError(f"Contract namespace collision: {path}")
 
         # value looks like {"content": <source code>}
